@@ -52,6 +52,9 @@ def run(res, ctx):
         rc, rm = core.run_oracle(binp, map_requests(res.tier, res.seed)); rm = [r[:2] for r in rm]
     c11.evaluate(res, ra, PROP)
     evaluate_maps(res, rm)
+    if not ctx.get('replay_requests'):
+        # pair lists with repeated keys (a Vec<(K, V)> as map-like collection): per key exactly the multiplicity delta
+        unord.evaluate_umap_multi(res, binp, minimal=True)
 
     def search():
         r2 = core.Result(PROP, res.tier, res.seed)
